@@ -1,5 +1,8 @@
 import RodbusModel.Model.Codec
 import RodbusModel.Model.Crc
+import RodbusModel.Model.Retry
+import RodbusModel.Model.Tracker
+import RodbusModel.Model.Filter
 /-
   small suites: `range`, `crc`
 -/
@@ -27,6 +30,101 @@ def runCrc (tok : List String) : String × String :=
   | [_, h] =>
     let v := toString (Crc.crc ((ofHex h).getD []))
     (v, v)
+  | _ => ("bad-case", "bad-case")
+
+/-! ### retry -/
+
+def durNs (tok : String) : Nat :=
+  match tok.splitOn ":" with
+  | [s, n] => s.toNat?.getD 0 * 1000000000 + n.toNat?.getD 0
+  | _ => 0
+
+/-- specification: the k-th consecutive failure after a reset waits `min (min·2^(k-1)) max`
+    (computed from the position in the call sequence, no state) -/
+def specRetry (mn mx : Nat) (ops : List Char) : List Nat :=
+  let rec go (k : Nat) : List Char → List Nat
+    | [] => []
+    | 'f' :: r => Nat.min (mn * 2 ^ k) mx :: go (k + 1) r
+    | 'd' :: r => mn :: go k r
+    | 'r' :: r => go 0 r
+    | _ :: r => go k r
+  go 0 ops
+
+def runRetry (tok : List String) : String × String :=
+  match tok with
+  | [_, mn, mx, ops] =>
+    let mn := durNs mn
+    let mx := durNs mx
+    let mops := ops.toList.filterMap fun c =>
+      if c = 'f' then some Retry.Op.failed else if c = 'd' then some .disconnect
+      else if c = 'r' then some .reset else none
+    let show_ (l : List Nat) := if l.isEmpty then "-" else ",".intercalate (l.map toString)
+    (show_ (Retry.run (Retry.create mn mx) mops), show_ (specRetry mn mx ops.toList))
+  | _ => ("bad-case", "bad-case")
+
+/-! ### trk -/
+
+def runTrk (tok : List String) : String × String :=
+  match tok with
+  | [_, m, ops] =>
+    let ops := if ops = "-" then [] else ops.splitOn ","
+    let idsStr (l : List Nat) := "[" ++ " ".intercalate (l.map toString) ++ "]"
+    let (_, out) := ops.foldl (fun (acc : Tracker.Tracker × String) op =>
+      let (t, s) := acc
+      if op = "a" then
+        let (id, t') := Tracker.add t
+        (t', s ++ s!"+{id}" ++ idsStr t'.ids)
+      else
+        let t' := Tracker.remove t ((String.ofList op.toList.tail).toNat?.getD 0)
+        (t', s ++ idsStr t'.ids)) (Tracker.new (m.toNat?.getD 0), "")
+    let out := if out.isEmpty then "-" else out
+    (out, out)
+  | _ => ("bad-case", "bad-case")
+
+/-! ### flt / fltm -/
+
+def utf8Chars (h : String) : List Char :=
+  match ofHex h with
+  | some bs => match String.fromUTF8? (ByteArray.mk (bs.map (·.toUInt8)).toArray) with
+    | some s => s.toList
+    | none => []
+  | none => []
+
+def fieldStr : Filter.Field → String
+  | .any => "*"
+  | .lit n => toString n
+
+def runFlt (tok : List String) : String × String :=
+  match tok with
+  | [_, h] =>
+    let r := match Filter.parseWildcard (utf8Chars h) with
+      | some w => "ok{b3:" ++ fieldStr w.b3 ++ ",b2:" ++ fieldStr w.b2 ++ ",b1:" ++ fieldStr w.b1 ++ ",b0:" ++ fieldStr w.b0 ++ "}"
+      | none => "err"
+    (r, r)
+  | _ => ("bad-case", "bad-case")
+
+/-- textual peer addresses: dotted IPv4 is parsed, anything else is an IPv6 address kept
+    opaque by its text (equality on the canonical text the generator uses) -/
+def parseAddr (s : String) : Filter.Addr :=
+  match (s.splitOn ".").map String.toNat? with
+  | [some a, some b, some c, some d] => .v4 a b c d
+  | _ => .v6 (s.toList.map Char.toNat)
+
+def runFltm (tok : List String) : String × String :=
+  match tok with
+  | [_, f, a] =>
+    let addr := parseAddr a
+    let kind := f.toList.headD 'a'
+    let rest := String.ofList f.toList.tail
+    let flt : Option Filter.AddressFilter :=
+      if kind = 'a' then some .any
+      else if kind = 'x' then some (.exact (parseAddr rest))
+      else if kind = 's' then some (.anyOf ((rest.splitOn "/").filter (· ≠ "") |>.map parseAddr))
+      else (Filter.parseWildcard (utf8Chars rest)).map .wildcard
+    let r := match flt with
+      | some fl => toString (fl.matches addr)
+      | none => "badfilter"
+    (r, r)
   | _ => ("bad-case", "bad-case")
 
 end Rodbus.Driver
